@@ -296,7 +296,7 @@ Proof.
   assert (HJ : J t g s) by (split; auto; intros _; simpl; apply c0_id).
   assert (Hw : J t g (fst (write_block_with_state t p b s))).
   { apply (J_wbws t g); auto.
-    - left. unfold good_block. rewrite Hhv, Hbv. reflexivity.
+    - unfold goodish, good_block. rewrite Hhv, Hbv. reflexivity.
     - exists p. split; auto. lia. }
   destruct (wbws_gen s GF0 eq_refl eq_refl) as [_ [W2 [W3 W4]]].
   destruct Hw as [HGw HCw]. rewrite W2 in HGw.
